@@ -19,7 +19,7 @@ P = {
          'table agreement + CFG dominance + who-may-call enumeration (ast)'),
  'C06': ('static decision of R6.1-R6.16: loop progress of every parser loop, exception-escape sets at the parse and execution boundaries, recursion-cycle bounds on the resolved call graph, BYE on every loop-body escape, bound-before-allocation dominance, None-flow, continuation requests only where handled, stream-collecting loops test the fresh line, run-time regexes escape client text and do not let the client choose the number of unbounded quantifiers, int() only of bounded digit runs, third-party SASL calls under a ValueError handler, escape set of the connection\'s own I/O helpers vs the handlers of the command loop (with a regex totality fact), frozen may-raise facts about the stdlib email package (header registry, SingleAddressHeader.address) handled where called',
          'loop-progress fixpoint + exception-escape analysis + SCCs over a resolved call graph (ast, re._parser)'),
- 'C07': ('static decision of R7.1-R7.14: quoted-string admission guard vs grammar, escape set language, direct QuotedString constructions, modutf7 output range, CRLF termination of every response writer, echo charset of tag/atom patterns, balanced delimiters, literal length agreement, client-chosen FETCH section parts echoed through a quoting serialiser, lazily rendered values written only with their content provider set, loaded-message accessors contain the no-content signal, variable-length ENVELOPE/BODYSTRUCTURE lists only when non-empty, disposition position is (type params)/NIL, multipart only with parts',
+ 'C07': ('static decision of R7.1-R7.16: quoted-string admission guard vs grammar, escape set language, direct QuotedString constructions, modutf7 output range, CRLF termination of every response writer, echo charset of tag/atom patterns, balanced delimiters, literal length agreement, client-chosen FETCH section parts echoed through a quoting serialiser, lazily rendered values written only with their content provider set, loaded-message accessors contain the no-content signal, variable-length ENVELOPE/BODYSTRUCTURE lists only when non-empty, disposition position is (type params)/NIL, multipart only with parts, ENVELOPE/BODYSTRUCTURE writers vs the RFC 3501 grammar table position by position, status response text never empty',
          'regex-language facts (re._parser) + guard truth tables + post-dominance (ast)'),
  'C08': ('static decision of R8.1-R8.5: client mailbox names reach filesystem sinks only through a validator on every call chain in both maildir layouts, INBOX guards before remove/rename, per-identity keying of the dict store, the validated name is used as validated (no transform between validation and sink), no per-user state in class-level containers',
          'must-pass-through taint on the call graph + dominance (ast)'),
